@@ -61,7 +61,11 @@ def _worker(task):
     samples = []
     accepted_pool = []
 
+    thin = G.Thinner(sc, tier)
+
     def check(gen, x, kw):
+        if thin.skip(gen):
+            return None
         o = G.call(mod, 'validate', mod.validate, (x,), kw)
         klass = 'ok' if o[0] == 'ok' else '%s:%s' % (o[0], o[1])
         st.record(gen, (x, G.kw_key(kw)), klass)
